@@ -118,6 +118,15 @@ Theorem C20_signature_helper :
 Proof. exact signature_helper. Qed.
 Print Assumptions C20_signature_helper.
 
+(* 0e. The validity hypothesis [parses] of 0a-0d is membership in the type grammar of Abi/Types.v
+       (the type trees of C02): the parameter's type text and components spell a valid [ty]
+       (spelling / valid_type: the specification of C13). *)
+Theorem C20_valid_is_type_grammar :
+  forall p, parses p <->
+    exists t, AbiType.Spec.valid_type t = true /\ AbiType.Spec.spelling t (fp_type p) (map erase (fp_comps p)).
+Proof. exact parses_iff_grammar. Qed.
+Print Assumptions C20_valid_is_type_grammar.
+
 (* non-vacuity: f(p tuple[][] {a uint256, b tuple {c bool}}) -> (q uint8) meets the hypotheses; the
    whole chain computes, and the alias "uint" shows the explicit-width guard is needed *)
 Example C20_roundtrip_nonvacuous :
@@ -151,6 +160,14 @@ Theorem C20_total :
     ConvertFFIErrorDefinitionToABI name params <> Panic.
 Proof. exact conversion_total. Qed.
 Print Assumptions C20_total.
+
+(* 1b. Neither does the ABI -> FFI direction, for any ABI (valid or not), in any map order: the model's
+       own partial operations there (tuple children against components, Details of a child schema)
+       are never out of their domain. *)
+Theorem C20_total_forward :
+  forall fs evs ers, ConvertABIToFFI_ord fs evs ers <> Panic.
+Proof. exact forward_total. Qed.
+Print Assumptions C20_total_forward.
 
 (* 2. Inconsistent schemas are errors.  [pin_inconsistent] (Spec.v; the oracle the correspondence
       run applies to the implementation, code 13): the schema passed the jsonschema compile and
